@@ -24,7 +24,9 @@ DataF == [k |-> "data", stream |-> 1, n |-> 5]
 Chrome == S_(<<Pm(1, 1, 0), Pm(2, 0, 0), Pm(4, 96, 0), Pm(6, 4, 0)>>)
 Firefox == S_(<<Pm(1, 1, 0), Pm(4, 2, 0), Pm(5, 0, 16384)>>)
 Edge == S_(<<Pm(3, 0, 1000), Pm(9, 0, 1), Pm(31337, 65535, 65535), Pm(4, 32768, 0), Pm(2, 32767, 65535), Pm(0, 0, 1)>>)
-SettingsS == {Chrome, Firefox, Edge, S_(<<Pm(4, 0, 0)>>)}
+\* identifiers that repeat (known and unknown ones): every id:value pair of the frame is listed, in wire order
+Repeats == S_(<<Pm(1, 1, 0), Pm(4, 0, 65535), Pm(3, 0, 100), Pm(4, 96, 0), Pm(2570, 0, 7), Pm(2570, 0, 9), Pm(1, 1, 0)>>)
+SettingsS == {Chrome, Firefox, Edge, S_(<<Pm(4, 0, 0)>>), Repeats}
 WuS == {<<>>, <<Wu(0, 239, 1, FALSE)>>, <<Wu(0, 191, 1, TRUE)>>, <<Wu(0, 32767, 65535, FALSE)>>, <<Wu(0, 0, 1, FALSE)>>, <<Wu(3, 0, 77, FALSE), Wu(0, 0, 12, FALSE)>>}
 PrS == {<<>>, <<Pr(3, FALSE, 0, 0, 200), Pr(5, FALSE, 0, 0, 100), Pr(7, TRUE, 0, 3, 0)>>, <<Pr(1, TRUE, 32767, 65535, 255)>>}
 \* PRIORITY frames whose dependency coincides with, or lies next to, their own stream id (stream 0 included), weights 0 / 255:
